@@ -941,6 +941,8 @@ fn c12_fix_witnesses(o: &mut Out) {
     ("multi capture of a constraint pattern as transform source", json!({"rule": {"pattern": "log($CALL)"}, "constraints": {"CALL": {"pattern": "format($FMT, $$$REST)"}}, "transform": {"UP": {"convert": {"source": "$$$REST", "toCase": "upperCase"}}}, "fix": "log2($FMT, $UP, $$$REST)"}), "log(format(f, x, y))", "log2(f, X, Y, x, y)"),
     ("multi capture of a has sub-rule", json!({"rule": {"pattern": "log($CALL)", "has": {"pattern": "format($$$ARGS)", "stopBy": "end"}}, "fix": "log2($$$ARGS)"}), "log(format(a, b))", "log2(a, b)"),
     ("multi capture of a local utility", json!({"utils": {"fmt": {"pattern": "format($$$ARGS)"}}, "rule": {"pattern": "log($CALL)", "has": {"matches": "fmt", "stopBy": "end"}}, "fix": "log2($$$ARGS)"}), "log(format(a, b))", "log2(a, b)"),
+    ("transformation with a digit-first name, string fix", json!({"rule": {"pattern": "log($A, $B)"}, "transform": {"1ST": {"convert": {"source": "$A", "toCase": "upperCase"}}, "SECOND": {"replace": {"source": "$B", "replace": "x", "by": "y"}}}, "fix": "emit($1ST, $SECOND, $100)"}), "log(abc, xyz)", "emit(ABC, yyz, $100)"),
+    ("transformation with a digit-first name, object fix", json!({"rule": {"pattern": "log($A, $B)"}, "transform": {"1ST": {"convert": {"source": "$A", "toCase": "upperCase"}}}, "fix": {"template": "emit($1ST, $100)"}}), "log(abc, xyz)", "emit(ABC, $100)"),
     ("constraint on a multi-capture-free rule, any of two patterns", json!({"rule": {"pattern": "log($CALL)"}, "constraints": {"CALL": {"any": [{"pattern": "fmt($$$ARGS)"}, {"pattern": "format($$$ARGS)"}]}}, "fix": "log2($$$ARGS)"}), "log(format(a, b))", "log2(a, b)"),
   ];
   let mut jobs = vec![];
